@@ -78,6 +78,9 @@ class ProgGen(object):
         self.in_exit_cond = 0
         self.in_try = 0
         self.exns = ["Ex0", "Ex1", "Ex2"] if "try" in self.feat else []
+        self.exnp = {}       # exceptions that carry a value (opt-in feature "exnp"): name -> type of the value
+        if "exnp" in self.feat:
+            self.enable_payload()
         self.macs = []
         self.in_macro = 0
         self.cats = []
@@ -336,6 +339,32 @@ class ProgGen(object):
             return {"e": "empty", "l": var(x)}
         raise ValueError(c)
 
+    def enable_payload(self):
+        """Opt in to exceptions that carry a value (also callable after construction, like the feature switches)."""
+        self.feat |= {"exnp", "try"}
+        if "ExP0" not in self.exns:
+            self.exns = (self.exns or ["Ex0", "Ex1", "Ex2"]) + ["ExP0", "ExP1"]
+        self.exnp = {"ExP0": SI, "ExP1": BI if "bi" in self.feat else SI}
+
+    def throw_node(self, ex, scope, d):
+        args = [self.expr(self.exnp[ex], scope, max(d - 1, 0))] if ex in self.exnp else []
+        return {"e": "throw", "exn": ex, "args": args}
+
+    def handler(self, ex, t, scope, d, body=None, use_payload=False):
+        """One catch clause.  A handler may ignore the value an exception carries; it reads it (`pv$E`) only where the
+        caller says so (use_payload): the try drivers, whose try is the body of a function.  Reading it in a try that is
+        nested in a conditional or a loop crashes on both routes (open finding, fixed program F12)."""
+        if ex not in self.exnp or not use_payload:
+            return {"exn": ex, "ps": [], "body": body if body is not None else self.expr(t, scope, d - 1)}
+        q = self.fresh("q")
+        sc = Scope(scope)
+        sc.vars[q] = (self.exnp[ex], False)
+        if body is None:
+            body = self.expr(t, sc, d - 1)
+        if t == self.exnp[ex]:               # make the carried value count
+            body = prim(("si" if t == SI else "bi") + ".add", var(q), body)
+        return {"exn": ex, "ps": [q], "body": body}
+
     def rhs(self, t, scope, d):
         """The single operand of an assignment / initialisation / return / yield: it may have side effects
         (a call of an impure function or of a closure), its own operands are pure."""
@@ -351,7 +380,7 @@ class ProgGen(object):
                 body = {"e": "call", "fi": r.choice(thr) + 1, "args": [lit(SI, r.randint(0, len(self.exns)))]}
             else:
                 body = self.rhs(t, scope, d - 1)
-            hs = [{"exn": ex, "ps": [], "body": self.expr(t, scope, d - 1)} for ex in r.sample(self.exns, r.randint(1, 2))]
+            hs = [self.handler(ex, t, scope, d) for ex in r.sample(self.exns, r.randint(1, 2))]
             if "try" in self.emph:
                 fin = {"e": "seq", "t": UNIT, "es": [{"e": "print", "args": [{"e": "str", "s": "fin%d\n" % r.randint(0, 9)}]}]}
             else:
@@ -548,7 +577,7 @@ class ProgGen(object):
             return {"e": "if", "c": self.expr(BOOL, scope, d - 1), "a": {"e": "ret", "v": self.rhs(self.ret_t, scope, d - 1)},
                     "b": {"e": "unit"}, "t": UNIT}
         if c == "throw":
-            return {"e": "if", "c": self.expr(BOOL, scope, d - 1), "a": {"e": "throw", "exn": r.choice(self.exns), "args": []},
+            return {"e": "if", "c": self.expr(BOOL, scope, d - 1), "a": self.throw_node(r.choice(self.exns), scope, d),
                     "b": {"e": "unit"}, "t": UNIT}
         if c == "halt":
             return {"e": "if", "c": self.expr(BOOL, scope, d - 1), "a": {"e": "error", "msg": "halt%d" % r.randint(0, 99)},
@@ -788,8 +817,10 @@ class ProgGen(object):
             name = self.fresh("f")
             p_ = self.fresh("p")
             es = []
+            tsc = Scope()
+            tsc.vars[p_] = (SI, False)
             for k, ex in enumerate(self.r.sample(self.exns, len(self.exns))):
-                es.append({"e": "exit", "c": prim("si.eq", var(p_), lit(SI, k)), "v": {"e": "throw", "exn": ex, "args": []}})
+                es.append({"e": "exit", "c": prim("si.eq", var(p_), lit(SI, k)), "v": self.throw_node(ex, tsc, 1)})
             es.append(prim("si.add", var(p_), lit(SI, self.r.randint(5, 50))))
             f = {"name": name, "oname": name, "ps": [p_], "pts": [SI], "rt": SI, "pure": False, "thrower": True,
                  "body": {"e": "seq", "t": SI, "es": es}}
@@ -837,7 +868,7 @@ class ProgGen(object):
         for k in range(2):
             p1 = self.fresh("p")
             inner = {"e": "try", "t": SI, "body": {"e": "call", "fi": r.choice(thr) + 1, "args": [var(p1)]},
-                     "hs": [{"exn": ex, "ps": [], "body": lit(SI, -(i + 1))} for i, ex in enumerate(r.sample(self.exns, r.randint(1, 2)))],
+                     "hs": [self.handler(ex, SI, None, 1, body=lit(SI, -(i + 1)), use_payload=True) for i, ex in enumerate(r.sample(self.exns, r.randint(1, 2)))],
                      "fin": fin("cleanup-inner%d" % k) if r.random() < 0.8 else {"e": "none"}}
             fi_ = {"name": self.fresh("f"), "ps": [p1], "pts": [SI], "rt": SI, "pure": False,
                    "body": {"e": "let", "x": self.fresh("v"), "t": SI, "v": inner, "body": None}}
@@ -847,7 +878,7 @@ class ProgGen(object):
             self.items.append(("f", fi_))
             p2 = self.fresh("p")
             outer = {"e": "try", "t": SI, "body": {"e": "call", "fi": len(self.funs), "args": [var(p2)]},
-                     "hs": [{"exn": ex, "ps": [], "body": lit(SI, 900 + i)} for i, ex in enumerate(self.exns)],
+                     "hs": [self.handler(ex, SI, None, 1, body=lit(SI, 900 + i), use_payload=True) for i, ex in enumerate(self.exns)],
                      "fin": fin("cleanup-outer%d" % k) if r.random() < 0.5 else {"e": "none"}}
             fo = {"name": self.fresh("f"), "ps": [p2], "pts": [SI], "rt": SI, "pure": False, "body": outer}
             fo["oname"] = fo["name"]
@@ -915,7 +946,7 @@ class ProgGen(object):
             else:
                 order.append(["t", len(top)])
                 top.append(it)
-        return {"id": pid or ("g%d" % self.seed), "funs": self.funs, "top": top, "order": order, "recs": self.recs, "exns": self.exns,
+        return {"id": pid or ("g%d" % self.seed), "funs": self.funs, "top": top, "order": order, "recs": self.recs, "exns": self.exns, "exnp": [{"exn": k, "t": v} for k, v in sorted(self.exnp.items())],
                 "uns": self.uns, "macs": self.macs, "cats": self.cats, "doms": self.doms, "feat": sorted(self.feat), "seed": self.seed}
 
     def overload_groups(self):
